@@ -94,7 +94,7 @@ SortedRows(n, ptr, col, val) ==
     FromRows(n, 0, [i \in 1..n |-> SortRowRun([q \in 1..(ptr[i + 1] - ptr[i]) |-> <<col[ptr[i] + q], val[ptr[i] + q]>>])])
 
 \* MaxAlloc: elements a vector may hold before resize throws (length_error / bad_alloc)
-MaxAlloc == 1000
+MaxAlloc == 2097152      \* = 16 MiB of 8-byte elements, the allocation limit of the recorder
 
 ReadCrs(f, rb0, re0) ==
     LET sz == f.sz
